@@ -66,7 +66,7 @@ def name_class(name):
 UID_POOL = ["u1", "u2", "u3", "u4", "Abc", "abc", "id with  spaces", "esc\\,a\\;b", "ünï-日"]
 
 TEXT_ALPHA = list("abcdefgh XYZ 0123 .-_:/\"'()!?@#%&*+=<>[]{}|~^`$") + ["é", "ü", "日本", "ж", "😀"]
-TEXT_ESC = ["\\,", "\\;", "\\\\", "\\n"]
+TEXT_ESC = ["\\,", "\\;", "\\\\", "\\n", "\\\\n", "\\\\\\,", "\\\\\\;"]  # the last three: a literal backslash followed by 'n' (not an escape), by a comma, by a semicolon - all in canonical spelling (backslash + capital N is left to the K8 probe of C01)
 
 
 @st.composite
@@ -327,9 +327,9 @@ def vcard(draw, uid=None, style=None):
     if draw(st.integers(0, 2)) == 0:
         props.append(("NOTE", [], draw(text_value(max_size=20))))
     if draw(st.integers(0, 3)) == 0:
-        props.append(("ORG", [], draw(st.sampled_from(["Example Corp;Sales", "Acme", "Müller GmbH"]))))
+        props.append(("ORG", [], draw(st.sampled_from(["Example Corp;Sales", "Acme", "Müller GmbH", "", "Acme;", ";Sales", "Acme;;R&D"]))))
     if draw(st.integers(0, 3)) == 0:
-        props.append(("CATEGORIES", [], draw(st.sampled_from(["friends", "work,friends", "Zoë"]))))
+        props.append(("CATEGORIES", [], draw(st.sampled_from(["friends", "work,friends", "Zoë", "", "friends,,work", "work,"]))))
     if draw(st.integers(0, 4)) == 0:
         props.append(("ADR", [("TYPE", ["HOME"])], ";;1 Main St;Springfield;IL;12345;USA"))
     if draw(st.integers(0, 4)) == 0:
